@@ -274,7 +274,10 @@ def _finish(cid, tier, seed, mod, known, results, crashes, timeouts, herrs, tota
     for r in results:
         for k, v in (r.get("counters") or {}).items():
             if isinstance(v, (int, float)):
-                counters[k] = counters.get(k, 0) + v
+                if k.startswith("max_"):
+                    counters[k] = max(counters.get(k, 0), v)
+                else:
+                    counters[k] = counters.get(k, 0) + v
         if r.get("nontrivial") and r.get("key") is not None:
             ks = r["key"] if isinstance(r["key"], list) else [r["key"]]
             for k in ks:
